@@ -129,7 +129,11 @@ pub fn project_index(ctx: &mut Ctx, ir: &IndexRaw, metric: Metric, dim: usize, w
     let mut problems: Vec<String> = ir.problems.clone();
     let mut store = Vec::new();
     let mut leafw_bad = 0;
+    let mut hdr_bad = 0;
     for (id, leaf) in &ir.leaves {
+        if !header_consistent(metric, &leaf.header, &leaf.vector) {
+            hdr_bad += 1;
+        }
         let want = metric.vec_len(dim);
         if leaf.vector.len() != want || leaf.header.len() != metric.header_len() {
             leafw_bad += 1;
@@ -192,8 +196,35 @@ pub fn project_index(ctx: &mut Ctx, ir: &IndexRaw, metric: Metric, dim: usize, w
         "metric": metric.short(), "dim": dim as i64,
         "store": store, "updated": updated, "meta": meta,
         "version": ir.version.map(|v| json!([v[0] as i64, v[1] as i64, v[2] as i64])).unwrap_or(json!([])),
-        "nodes": nodes, "leafw_bad": leafw_bad, "problems": problems,
+        "nodes": nodes, "leafw_bad": leafw_bad, "hdr_bad": hdr_bad, "problems": problems,
     })
+}
+
+/// The leaf header caches a function of the vector (Appendix A): bias 0 for the (quantised) Euclidean and
+/// Manhattan metrics, the norm for the two cosine metrics. DotProduct's header is rewritten at build time from
+/// all items and is not checked here.
+fn header_consistent(m: Metric, header: &[u8], vector: &[u8]) -> bool {
+    if header.len() != m.header_len() {
+        return true; // counted as a width problem already
+    }
+    let h0 = f32::from_ne_bytes(header[0..4].try_into().unwrap());
+    match m {
+        Metric::Euclidean | Metric::Manhattan | Metric::BqEuclidean | Metric::BqManhattan => h0 == 0.0,
+        Metric::Cosine => {
+            let Ok(v) = decode::decode_vector(m, vector) else { return true };
+            let n2: f64 = v.iter().map(|x| (*x as f64) * (*x as f64)).sum();
+            if !n2.is_finite() || n2 > (f32::MAX as f64) / 8.0 || (n2 > 0.0 && n2 < 1e-30) {
+                return true; // overflow / underflow zone: no claim
+            }
+            let want = n2.sqrt();
+            ((h0 as f64) - want).abs() <= want * (v.len() as f64 + 8.0) * (f32::EPSILON as f64) + 1e-30
+        }
+        Metric::BqCosine => {
+            let want = ((vector.len() * 8) as f64).sqrt();
+            ((h0 as f64) - want).abs() <= want * 4.0 * (f32::EPSILON as f64)
+        }
+        Metric::DotProduct => true,
+    }
 }
 
 fn open_class<D: arroy::Distance>(rtxn: &RoTxn, idx: u16, db: RawDb) -> String {
